@@ -531,6 +531,23 @@ macro_rules! family {
                 let segs: Vec<String> = p.segments().map(|s| hex(bytes_of(s))).collect();
                 let rsegs: Vec<String> = p.segments().rev().map(|s| hex(bytes_of(s))).collect();
                 let nsegs: Vec<String> = p.normalized_segments().map(|s| hex(bytes_of(s))).collect();
+                // the std adaptors of the normalised-segment iterator agree with the collected list
+                let nlen = {
+                    let n = p.normalized_segments().len();
+                    let mut bad: Vec<&str> = Vec::new();
+                    if n != nsegs.len() { bad.push("len") }
+                    if p.normalized_segments().count() != nsegs.len() { bad.push("count") }
+                    let (lo, hi) = p.normalized_segments().size_hint();
+                    if lo > nsegs.len() || hi.map_or(false, |h| h < nsegs.len()) { bad.push("size_hint") }
+                    if p.normalized_segments().last().map(|s| hex(bytes_of(s))) != nsegs.last().cloned() { bad.push("last") }
+                    let mut it = p.normalized_segments();
+                    let back = it.next_back().map(|s| hex(bytes_of(s)));
+                    if back != nsegs.last().cloned() { bad.push("next_back") }
+                    if it.len() != nsegs.len().saturating_sub(1) || it.count() != nsegs.len().saturating_sub(1) { bad.push("len-after-back") }
+                    let mut it2 = p.normalized_segments();
+                    if it2.nth(1).map(|s| hex(bytes_of(s))) != nsegs.get(1).cloned() { bad.push("nth") }
+                    if bad.is_empty() { n.to_string() } else { format!("BAD:{}", bad.join("+")) }
+                };
                 format!(
                     "e={} a={} n={} first={} last={} fn={} dir={} par={} poe={} nlen={} segs=[{}] rsegs=[{}] nsegs=[{}] norm={} norm2={}",
                     b01(p.is_empty()),
@@ -542,7 +559,7 @@ macro_rules! family {
                     hex(p.directory().as_bytes()),
                     ohex(p.parent().map(|x| x.as_bytes())),
                     hex(p.parent_or_empty().as_bytes()),
-                    p.normalized_segments().len(),
+                    nlen,
                     segs.join(","),
                     rsegs.join(","),
                     nsegs.join(","),
@@ -561,6 +578,8 @@ macro_rules! family {
                     let r = match c {
                         'f' => it.next(),
                         'b' => it.next_back(),
+                        'N' => it.nth(1),
+                        'B' => it.nth_back(1),
                         // terminal: consume what is left through the std adaptors
                         'c' => { out.push(format!("rest={}", it.count())); break }
                         'l' => { out.push(format!("last={}", ohex(it.last().map(|s| bytes_of(s))))); break }
